@@ -132,96 +132,14 @@ def confirmedRacy : Known := [
   sort never moves an element (nothing for the detector to see);
 * `block.ValidateState` reads `b.Round` only on an error-logging path a consistent state trie never takes. -/
 def unconfirmed : Known := [
-UN  (nm! "Block.ClientState", nm! "Block.Clone", nm! "Block.CreateState"),
-  (nm! "Block.ClientState", nm! "Block.ComputeState", nm! "Block.CreateState"),
-  (nm! "Block.ClientState", nm! "Block.ComputeState", nm! "Block.setClientState"),
-  (nm! "Block.ClientState", nm! "Block.CreateState", nm! "Block.CreateState"),
-  (nm! "Block.ClientState", nm! "Block.CreateState", nm! "Block.SaveChanges"),
-  (nm! "Block.ClientState", nm! "Block.CreateState", nm! "Block.setClientState"),
-  (nm! "Block.ClientState", nm! "Block.CreateState", nm! "block.CreateStateWithPreviousBlock"),
-  (nm! "Block.ClientState", nm! "Block.CreateState", nm! "block.NewBlockStateChange"),
-  (nm! "Block.ClientState", nm! "Block.CreateState", nm! "block.StateSanityCheck"),
-  (nm! "Block.ClientState", nm! "Block.CreateState", nm! "block.ValidateState"),
-  (nm! "Block.ClientState", nm! "Block.setClientState", nm! "block.CreateStateWithPreviousBlock"),
-  (nm! "Block.ClientState", nm! "Block.setClientState", nm! "block.NewBlockStateChange"),
-  (nm! "Block.ClientState", nm! "Block.setClientState", nm! "block.StateSanityCheck"),
-  (nm! "Block.ClientState", nm! "Block.setClientState", nm! "block.ValidateState"),
-  (nm! "Block.ClientStateHash", nm! "Block.ApplyBlockStateChange", nm! "Block.setClientState"),
-  (nm! "Block.ClientStateHash", nm! "Block.ComputeState", nm! "Block.setClientState"),
-  (nm! "Block.ClientStateHash", nm! "Block.GetSummary", nm! "Block.setClientState"),
-  (nm! "Block.ClientStateHash", nm! "Block.InitStateDB", nm! "Block.setClientState"),
-  (nm! "Block.ClientStateHash", nm! "Block.setClientState", nm! "UnverifiedBlockBody.Clone"),
-  (nm! "Block.ClientStateHash", nm! "Block.setClientState", nm! "block.CreateStateWithPreviousBlock"),
-  (nm! "Block.ClientStateHash", nm! "Block.setClientState", nm! "block.StateSanityCheck"),
-  (nm! "Block.ClientStateHash", nm! "Block.setClientState", nm! "block.blockToBlockEvent"),
-  (nm! "Block.ClientStateHash", nm! "Block.setClientState", nm! "block.validateStateChangesRoot"),
-  (nm! "Block.PrevBlock", nm! "Block.ApplyBlockStateChange", nm! "Block.Clear"),
-  (nm! "Block.PrevBlock", nm! "Block.ApplyBlockStateChange", nm! "Block.SetPreviousBlock"),
-  (nm! "Block.PrevBlock", nm! "Block.Clear", nm! "Block.Clear"),
-  (nm! "Block.PrevBlock", nm! "Block.Clear", nm! "Block.Clone"),
-  (nm! "Block.PrevBlock", nm! "Block.Clear", nm! "Block.ComputeState"),
-  (nm! "Block.PrevBlock", nm! "Block.Clear", nm! "Block.SetPreviousBlock"),
-  (nm! "Block.PrevBlock", nm! "Block.Clear", nm! "block.StateSanityCheck"),
-  (nm! "Block.PrevBlock", nm! "Block.Clear", nm! "block.ValidateState"),
-  (nm! "Block.PrevBlock", nm! "Block.Clone", nm! "Block.ComputeState"),
-  (nm! "Block.PrevBlock", nm! "Block.Clone", nm! "Block.SetPreviousBlock"),
-  (nm! "Block.PrevBlock", nm! "Block.ComputeState", nm! "Block.SetPreviousBlock"),
-  (nm! "Block.PrevBlock", nm! "Block.ComputeState", nm! "block.StateSanityCheck"),
-  (nm! "Block.PrevBlock", nm! "Block.ComputeState", nm! "block.ValidateState"),
-  (nm! "Block.PrevBlock", nm! "Block.SetPreviousBlock", nm! "block.StateSanityCheck"),
-  (nm! "Block.PrevBlock", nm! "Block.SetPreviousBlock", nm! "block.ValidateState"),
-  (nm! "Block.PrevBlockVerificationTickets", nm! "Block.SetPrevBlockVerificationTickets", nm! "UnverifiedBlockBody.Clone"),
-  (nm! "Block.PrevBlockVerificationTickets", nm! "Block.SetPreviousBlock", nm! "UnverifiedBlockBody.Clone"),
-  (nm! "Block.PrevHash", nm! "Block.ComputeState", nm! "Block.SetPreviousBlock"),
-  (nm! "Block.PrevHash", nm! "Block.SetPreviousBlock", nm! "Block.getHashData"),
-  (nm! "Block.PrevHash", nm! "Block.SetPreviousBlock", nm! "UnverifiedBlockBody.Clone"),
-  (nm! "Block.PrevHash", nm! "Block.SetPreviousBlock", nm! "block.blockToBlockEvent"),
-  (nm! "Block.Round", nm! "Block.ApplyBlockStateChange", nm! "Block.SetPreviousBlock"),
-  (nm! "Block.Round", nm! "Block.ComputeState", nm! "Block.SetPreviousBlock"),
-  (nm! "Block.Round", nm! "Block.CreateState", nm! "Block.SetPreviousBlock"),
-  (nm! "Block.Round", nm! "Block.GetScore", nm! "Block.SetPreviousBlock"),
-  (nm! "Block.Round", nm! "Block.GetSummary", nm! "Block.SetPreviousBlock"),
-  (nm! "Block.Round", nm! "Block.SaveChanges", nm! "Block.SetPreviousBlock"),
-  (nm! "Block.Round", nm! "Block.SetPreviousBlock", nm! "Block.SetPreviousBlock"),
-  (nm! "Block.Round", nm! "Block.SetPreviousBlock", nm! "Block.getHashData"),
-  (nm! "Block.Round", nm! "Block.SetPreviousBlock", nm! "Round.AddNotarizedBlock"),
-  (nm! "Block.Round", nm! "Block.SetPreviousBlock", nm! "UnverifiedBlockBody.Clone"),
-  (nm! "Block.Round", nm! "Block.SetPreviousBlock", nm! "block.CreateFinalizeBlockEvent"),
-  (nm! "Block.Round", nm! "Block.SetPreviousBlock", nm! "block.CreateStateWithPreviousBlock"),
-  (nm! "Block.Round", nm! "Block.SetPreviousBlock", nm! "block.blockToBlockEvent"),
-  (nm! "Block.Round", nm! "Block.SetPreviousBlock", nm! "block.validateStateChangesRoot"),
-  (nm! "Block.VerificationTickets", nm! "Block.AddVerificationTicket", nm! "Block.Clone"),
-  (nm! "Block.VerificationTickets", nm! "Block.Clone", nm! "Block.MergeVerificationTickets"),
-  (nm! "Block.VerificationTickets[]", nm! "Block.AddVerificationTicket", nm! "Block.Clone"),
-  (nm! "Block.blockState", nm! "Block.Clone", nm! "Block.SetBlockState"),
-  (nm! "Block.blockState", nm! "Block.GetBlockState", nm! "Block.SetBlockState"),
-  (nm! "Block.blockState", nm! "Block.SetBlockState", nm! "Block.SetBlockState"),
-  (nm! "Block.isNotarized", nm! "Block.Clone", nm! "Block.SetBlockNotarized"),
-  (nm! "Block.stateStatus", nm! "Block.ApplyBlockStateChange", nm! "Block.SetStateStatus"),
-  (nm! "Block.stateStatus", nm! "Block.Clone", nm! "Block.SetStateStatus"),
-  (nm! "Block.verificationStatus", nm! "Block.Clone", nm! "Block.SetVerificationStatus"),
-  (nm! "Block.verificationStatus", nm! "Block.GetVerificationStatus", nm! "Block.SetVerificationStatus"),
-  (nm! "Block.verificationStatus", nm! "Block.SetVerificationStatus", nm! "Block.SetVerificationStatus"),
-  (nm! "Round.RandomSeed", nm! "Round.Clone", nm! "Round.setRandomSeed"),
-  (nm! "Round.notarizedBlocks", nm! "Round.AddNotarizedBlock", nm! "Round.GetNotarizedBlocks"),
-  (nm! "Round.notarizedBlocks", nm! "Round.GetNotarizedBlocks", nm! "Round.initialize"),
-  (nm! "Round.notarizedBlocks[]", nm! "Round.AddNotarizedBlock", nm! "Round.GetNotarizedBlocks"),
-  (nm! "Round.notarizedBlocks[]", nm! "Round.GetNotarizedBlocks", nm! "Round.UpdateNotarizedBlock"),
-  (nm! "Round.phase", nm! "Round.Clone", nm! "Round.ResetPhase"),
-  (nm! "Round.phase", nm! "Round.Clone", nm! "Round.setPhase"),
-  (nm! "Round.proposedBlocks[]", nm! "Round.GetProposedBlocks", nm! "Round.UpdateNotarizedBlock"),
-  (nm! "Round.proposedBlocks[]", nm! "Round.GetProposedBlocks", nm! "Round.addProposedBlock"),
-  (nm! "Round.softTimeoutCount", nm! "Round.Clone", nm! "Round.IncSoftTimeoutCount"),
-  (nm! "Round.timeoutCounter.count", nm! "Round.Clone", nm! "timeoutCounter.IncrementTimeoutCount"),
-  (nm! "Round.timeoutCounter.count", nm! "Round.Clone", nm! "timeoutCounter.SetTimeoutCount"),
-  (nm! "Round.timeoutCounter.count", nm! "Round.Clone", nm! "timeoutCounter.checkCap"),
-  (nm! "Round.timeoutCounter.perm", nm! "Round.Clone", nm! "timeoutCounter.rankTimeoutCounters"),
-  (nm! "Round.timeoutCounter.prrs", nm! "Round.Clone", nm! "timeoutCounter.rankTimeoutCounters"),
-  (nm! "Round.timeoutCounter.votes", nm! "Round.Clone", nm! "timeoutCounter.resetVotes"),
-  (nm! "Round.vrfStartTime", nm! "Round.Clone", nm! "Round.SetVrfStartTime"),
-  (nm! "VT.cancel", nm! "VT.validate", nm! "VT.validate"),
-  (nm! "VT.roundMismatch", nm! "VT.main", nm! "VT.validate"),
-  (nm! "VT.roundMismatch", nm! "VT.validate", nm! "VT.validate")
+  (nm! "Round.notarizedBlocks[]", nm! "Round.Clone", nm! "Round.GetBestRankedNotarizedBlock"),
+  (nm! "Round.notarizedBlocks[]", nm! "Round.GetBestRankedNotarizedBlock", nm! "Round.GetBestRankedNotarizedBlock"),
+  (nm! "Round.notarizedBlocks[]", nm! "Round.GetBestRankedNotarizedBlock", nm! "Round.GetHeaviestNotarizedBlock"),
+  (nm! "Round.notarizedBlocks[]", nm! "Round.GetBestRankedNotarizedBlock", nm! "Round.GetNotarizedBlocks"),
+  (nm! "Round.proposedBlocks[]", nm! "Round.Clone", nm! "Round.GetBestRankedProposedBlock"),
+  (nm! "Round.proposedBlocks[]", nm! "Round.GetBestRankedProposedBlock", nm! "Round.GetBestRankedProposedBlock"),
+  (nm! "Round.proposedBlocks[]", nm! "Round.GetBestRankedProposedBlock", nm! "Round.GetProposedBlocks"),
+  (nm! "Block.Round", nm! "Block.SetPreviousBlock", nm! "block.ValidateState")
 ]
 
 def knownRacy : Known := confirmedRacy ++ unconfirmed
